@@ -247,13 +247,19 @@ CLAIMED = {
          "line (C06_no_repeated_wait: the list of all (waiter, line) registrations ever made has no duplicates) and each line is in at most "
          "one place, queued or registered under one dependency of one tracker (C06_one_place_per_line), so a line is attempted only "
          "when registered nowhere and each attempt registers it at most once; proved by a token invariant carried through the whole "
-         "control flow next to the two earlier invariants. "
-         "Tie: tracker histories (random + all short ones) and solver traces executed on model and real code. Termination and the numeric "
-         "evaluation bound (attempts <= schedulings*(1+distinct waits)+spec loads) are decided by the monitor on the real solver under an "
-         "attempt budget, and a real-form monitor checks that no line is left waiting on a dependency that holds a value - stated as partial.",
+         "control flow next to the two earlier invariants. The count of evaluations is a theorem too (SolverCount.v, C06_bounded_attempts): in "
+         "every such run, for every line f, #attempts(f) <= 1 + #distinct lines f was registered to wait for + #answered prompts that named f "
+         "as waiting + #input names whose specification was loaded (a retry inside one attempt follows the loading of a new form's input "
+         "specifications) - a counting invariant (attempts + live tokens <= credits) carried through the same control-flow induction. "
+         "Tie: tracker histories (random + all short ones) and solver traces (attempt events included) executed on model and real code. "
+         "Termination itself (that some fuel suffices) is decided by the monitor on the real solver under an attempt budget, which also "
+         "re-checks the numeric bound on real forms, and a real-form monitor checks that no line is left waiting on a dependency that holds "
+         "a value - stated as partial.",
     design_ref='DESIGN.md §4 C06',
-    note="Trusted as for C01. Termination itself (a fuel bound) and the count of evaluations are observed, not proved (partial); wall-clock and "
-         "recursion depth are runtime. The two new theorems assume NoDup of the requested forms and no individually requested lines.",
+    note="Trusted as for C01. Termination itself (a fuel bound) is observed, not proved (partial): the proved bound on attempts per line "
+         "makes the total work finite in the size of the catalogue, but the statement 'main_loop returns within N iterations' is not a theorem; "
+         "wall-clock and recursion depth are runtime. The theorems of SolverWaits.v / SolverCount.v assume NoDup of the requested forms and no "
+         "individually requested lines.",
     technique='Rocq refinement proof of the tracker (Permutation accounting) + invariant on the prompt transcript; correspondence; budgeted monitor',
  ),
  'C13': dict(
